@@ -1,10 +1,11 @@
 \* Encoding migration, snapshot bookkeeping (C02), edge cover replayed on the real FSM:
-\* one session (CreateSession is the prelude) in a JSON life, <= 3 further entries over
+\* one session (CreateSession is the prelude) in a JSON life, <= 2 further entries over
 \* {line, raft-internal} x timestamps {0, 6}, <= 1 raft-internal gap (ConvertToProto
 \* re-encodes those on another branch), two snapshots (so: JSON container before the
 \* migration, protobuf container after it, and the protobuf snapshot starting from the base
 \* the JSON snapshot left), live restore, a plain restart, one RestartWithEncoding("proto").
 \* Compaction times 64 / 70: cutoff 3 (ts 0 old, ts 6 young) / 9 (everything old).
+\* Measured: 8,093 distinct states, 18,621 transitions (8,435 maximal behaviours contain the migration).
 SPECIFICATION Spec
 CONSTANTS
     Alphabet <- AlphaMigB
